@@ -46,14 +46,17 @@ func LeaseIDFromEscrowAccount(id etypes.AccountID, pid string) (LeaseID, bool) {
 		return LeaseID{}, false
 	}
 
-	owner, err := sdk.AccAddressFromBech32(parts[2])
-	if err != nil {
+	if _, err := sdk.AccAddressFromBech32(parts[2]); err != nil {
 		return LeaseID{}, false
 	}
 
-	return MakeLeaseID(
-		MakeBidID(
-			MakeOrderID(
-				dtypes.MakeGroupID(
-					did, uint32(gseq)), uint32(oseq)), owner)), true
+	// keep the provider as written: records are keyed by the address string
+	oid := MakeOrderID(dtypes.MakeGroupID(did, uint32(gseq)), uint32(oseq))
+	return LeaseID{
+		Owner:    oid.Owner,
+		DSeq:     oid.DSeq,
+		GSeq:     oid.GSeq,
+		OSeq:     oid.OSeq,
+		Provider: parts[2],
+	}, true
 }
